@@ -10,7 +10,7 @@ package labelmap
 // ancestor or sibling sees mappings made in a descendant.
 
 //@ func getDistFromRoot
-//@   prop C08 C03
+//@   prop C08 C03 C02
 //@   modifies nothing
 //@   invariant loop 1: distMap != nil && fresh(distMap)
 //@   invariant loop 1: forall u dvid.VersionID :: has(distMap, u) <==> (exists k int :: 0 <= k && k <= rangeindex && ancestry[k] == u)
@@ -18,7 +18,7 @@ package labelmap
 //@   ensures forall u dvid.VersionID :: has(result, u) <==> (exists k int :: 0 <= k && k < len(ancestry) && ancestry[k] == u)
 
 //@ func VCache.initToVersion
-//@   prop C08 C03
+//@   prop C08 C03 C02
 //@   requires vc != nil && vc.mappedVersions != nil
 //@   safety_off
 //@   modifies *
@@ -137,7 +137,7 @@ package labelmap
 //@   assert at "if err := d.persistNextLabel(); err != nil {": heldw("d.mlMu") && d.NextLabel == n0 + 1
 
 //@ func Data.newLabels
-//@   prop C12 C11
+//@   prop C12 C11 C03
 //@   requires d != nil && d.MaxLabel != nil
 //@   lockset
 //@   interference
@@ -148,6 +148,9 @@ package labelmap
 //@   ghost g0 uint64 = 0
 //@   ghostset at "if d.NextLabel != 0 {": g0 = d.MaxRepoLabel
 //@   assert at "d.MaxLabel[v] = d.MaxRepoLabel": heldw("d.mlMu") && begin == g0 + 1 && end == g0 + numLabels && d.MaxRepoLabel == end
+//@   assert at "if err = d.persistNextLabel(); err != nil {": heldw("d.mlMu") && d.NextLabel == end
+//@   assert at "if err = d.persistMaxLabel(v); err != nil {": heldw("d.mlMu") && d.MaxRepoLabel == end && d.MaxLabel[v] == end
+//@   assert at "if err = d.persistMaxRepoLabel(); err != nil {": heldw("d.mlMu") && d.MaxRepoLabel == end
 
 //@ func Data.SetNextLabelStart
 //@   prop C12 C11
@@ -197,3 +200,29 @@ package labelmap
 //@   ghostset after "putWG.Wait()": waited = true
 //@   assert at "close(blockCh)": waited
 //@   assert at "serialization, err := dvid.SerializePrecompressedData(compressed, d.Compression(), d.Checksum())": scale == 0 && block != nil ==> (forall k int :: {block.Labels[k]} 0 <= k && k < len(block.Labels) ==> gmax >= block.Labels[k])
+
+// vmap.value (C08, C01: which body a supervoxel belongs to at a version): among the (version, body)
+// tuples recorded for the supervoxel, the answer is the tuple of the version FARTHEST from the root that
+// lies on the ancestry path (mappedVersions) - whatever the order in which the tuples were recorded
+// (live edits append root-to-leaf, a reload from the mutation log appends leaf-to-root).
+//@ func vmap.decodeMappings
+//@   prop C08
+//@   trusted
+//@   modifies nothing
+//@   ensures result != nil && fresh(result)
+
+//@ func vmap.value
+//@   prop C08 C01
+//@   safety_off
+//@   modifies nothing
+//@   ghost bv dvid.VersionID = 0
+//@   ghost mp map[dvid.VersionID]uint64 = nil
+//@   ghostset after "mapping := vm.decodeMappings()": mp = mapping
+//@   ghostset at "farthest = rootDist": bv = v
+//@   invariant loop 1: mp == mapping
+//@   invariant loop 1: forall u dvid.VersionID :: visited1[u] && has(mappedVersions, u) ==> mappedVersions[u] <= farthest
+//@   invariant loop 1: present ==> has(mp, bv) && has(mappedVersions, bv) && mappedVersions[bv] == farthest && label == mp[bv]
+//@   invariant loop 1: !present ==> farthest == 0 && label == 0
+//@   ensures present ==> has(mp, bv) && label == mp[bv] && has(mappedVersions, bv)
+//@   ensures present ==> (forall u dvid.VersionID :: has(mp, u) && has(mappedVersions, u) ==> mappedVersions[u] <= mappedVersions[bv])
+//@   ensures !present ==> label == 0
